@@ -11,11 +11,26 @@ def parseHeader (j : Json) : Except String Header := do
 def obs (hs : List Header) : Json :=
   Json.arr (hs.map fun h => Json.arr #[toJson h.name, toJson h.value]).toArray
 
+/-- `str::to_lowercase` as a table supplied with the case (computed by Rust for every name that occurs in it);
+a name missing from the table is a protocol error, never defaulted. -/
+def lowerTable (j : Json) (names : List String) : Except String (String → String) := do
+  match j.getObjVal? "lower" with
+  | .error _ => return String.toLower        -- cases without a table (old corpus): ASCII names only
+  | .ok t =>
+    let pairs ← names.mapM fun n => do
+      match t.getObjValAs? String n with
+      | .ok v => pure (n, v)
+      | .error _ => throw s!"lower table has no entry for {n}"
+    return fun s => match pairs.lookup s with
+      | some v => v
+      | none => s.toLower   -- strings the model never applies `lower` to in this case
+
 def handle (j : Json) : Except String Json := do
   let fs ← (← Drv.arr? j "filters").toList.mapM parseFilter
   let hs ← (← Drv.arr? j "headers").toList.mapM parseHeader
-  let m := filterHeaders String.toLower fs hs
-  let s := refFold String.toLower fs hs
+  let lower ← lowerTable j (fs.map (·.header) ++ hs.map (·.name))
+  let m := filterHeaders lower fs hs
+  let s := refFold lower fs hs
   return Json.mkObj [("m", obs m), ("s", obs s)]
 
 def main : IO Unit := Drv.run handle
